@@ -467,4 +467,6 @@ def run(ctx: Ctx, tier: str) -> Result:
     borrow(ctx, res, tier, "c20", ("C20.ISO",), "C06.ISOLATE", "the results of the tracepoints sharing an event are processed each in its own guard")
     borrow(ctx, res, tier, "c15", ("C15.RESULT",), "C06.COMPLETE", "a deferred snapshot is handed to delivery once it is complete: the captured result and its variables are in "
            "it before the (concurrent) sender sees it")
+    borrow(ctx, res, tier, "c15", ("C15.THREAD",), "C06.COMPLETE", "a deferred snapshot is completed by its own thread's events (the queue of pending work is per thread)")
+    borrow(ctx, res, tier, "c05", ("C05.STR",), "C06.TOTAL", "cutting a text to the limit cannot fail (a slice of the text, no re-encoding that may split a character)")
     return res
